@@ -16,6 +16,8 @@ for _m in (ast, message, annotationparser, transformer, maintransformer, introsp
 UNIVERSE.register(collections.OrderedDict)
 
 A = ast
+from givc.model import named_spec, TypeSpec, parse_spec   # noqa
+named_spec('AttrDict', TypeSpec('dict', (collections.OrderedDict,), False, parse_spec('str'), exact=True))
 
 schema(A.Type, ctype='str?', gtype_name='str?', origin_symbol='any', target_fundamental='str?',
        target_giname='str?', target_foreign='str?', is_const='bool|int', complete_ctype='str?')
@@ -25,7 +27,7 @@ schema(A.List, name='str?', element_type='Type')
 schema(A.Map, key_type='Type', value_type='Type')
 
 schema(A.Annotated, version='str?', version_doc='str?', skip='bool', introspectable='bool',
-       attributes='dict[str]', stability='str?', stability_doc='str?', deprecated='str?',
+       attributes='AttrDict', stability='str?', stability_doc='str?', deprecated='str?',
        deprecated_doc='str?', doc='str?', doc_position='Position?')
 schema(A.Node, namespace='Namespace?', name='str?', foreign='bool', file_positions='set', _parent='any')
 schema(A.Namespace, name='str', version='str?', identifier_prefixes='list[str]', symbol_prefixes='list[str]',
@@ -126,3 +128,9 @@ schema(CTyp, type='int', base_type='CTyp?', name='str?', type_qualifier='int', c
        is_bitfield='bool', function_specifier='int')
 schema(sourcescanner.SourceSymbol, _scanner='any', _symbol='CSym')
 schema(sourcescanner.SourceType, _scanner='any', _stype='CTyp')
+
+from givc.model import class_invariant   # noqa
+class_invariant(A.Array, target_fundamental='<array>')
+class_invariant(A.List, target_fundamental='<list>')
+class_invariant(A.Map, target_fundamental='<map>')
+class_invariant(A.Varargs, target_fundamental='<varargs>')
